@@ -216,6 +216,8 @@ type Engine struct {
 	nIter     int
 	localArr  map[int]bool // byte arrays that are local variables (mutable through slices)
 	axiomMu   sync.Mutex
+	freshDepth int
+	freshBusy  map[string]bool // unmodelled types being expanded (recursive library types end in an opaque value)
 	axiomNote map[string]string // axiom text -> description (contract axioms)
 	axiomUsed map[string]bool   // descriptions of the axioms included in some query
 	elemAlias map[int]elemAliasT // objects reflected out of pointer-element arrays: writes go back to the array
@@ -694,6 +696,17 @@ func (e *Engine) freshVal(st *State, hint string, t types.Type) Val {
 		return &CtxV{World: 0, Height: h, Time: tm}
 	}
 	if !e.modelled(t) {
+		// unmodelled (library) types: structure is followed only a few levels deep and only for repository types
+		e.freshDepth++
+		defer func() { e.freshDepth-- }()
+		if e.freshDepth > 8 || e.freshBusy[ts] {
+			return &OpaqueV{Tag: ts}
+		}
+		if e.freshBusy == nil {
+			e.freshBusy = map[string]bool{}
+		}
+		e.freshBusy[ts] = true
+		defer delete(e.freshBusy, ts)
 		if u, ok := t.Underlying().(*types.Struct); ok && !tsIsSpecial(ts) {
 			sv := &StructV{Typ: t}
 			for i := 0; i < u.NumFields(); i++ {
